@@ -19,7 +19,7 @@ for id in "${ids[@]}"; do
   [ -z "$prof" ] && { echo -e "$id\t$prop\t-\t-\tno profile" | tee -a $OUT; continue; }
   extra=""
   case $id in
-    C05b) export VERIF_VDENSE=region/compressor.go,region/multi.go,hrpc/mutate.go,hrpc/get.go,hrpc/scan.go; extra=" (statement-dense build)";;
+    C05b|C05c) export VERIF_VDENSE=region/compressor.go,region/multi.go,hrpc/mutate.go,hrpc/get.go,hrpc/scan.go; extra=" (statement-dense build)";;
     *) unset VERIF_VDENSE;;
   esac
   unset RACE
